@@ -9,7 +9,7 @@ from ..gen import fmt_date_layout, G, Qty, WINDOW, LAYOUTS
 from ..common import run_apps, app, out_of, sig
 from ..core import unhx
 
-THEOREMS = ['dayAcc_is_register', 'totals_eq_sum_daily', 'single_row_eq_day_totals', 'bal_single_total_eq_period_total', 'quantity_eq_sum_csv_rows', 'summary_eq_register_day', 'unresolved_eq_logged_minus_book', 'stats_counts_headings', 'quantity_eq_balance_leaf', 'stats_days_ago', 'single_csv_same_figures', 'totals_layout_follows_source', 'value_rows_follow_source', 'formats_well_typed', 'stats_layout_follows_source']
+THEOREMS = ['dayAcc_is_register', 'totals_eq_sum_daily', 'single_row_eq_day_totals', 'bal_single_total_eq_period_total', 'quantity_eq_sum_csv_rows', 'summary_eq_register_day', 'unresolved_eq_logged_minus_book', 'stats_counts_headings', 'quantity_eq_balance_leaf', 'stats_days_ago', 'single_csv_same_figures', 'totals_layout_follows_source', 'value_rows_follow_source', 'formats_well_typed', 'stats_layout_follows_source', 'summary_layout_follows_template']
 LEVEL = 'proof'
 RULE = ('random logs (4 % with 100 to 600 headings) x nested books x periods x elements; every relation is evaluated between two independent code paths of the program on the same input '
         '(no reference model in between): totals vs sum of daily register totals vs reg -s rows (text and --csv) vs bal -s total; quantity vs balance leaves vs csv log; element-total vs resolved csv; '
